@@ -236,6 +236,8 @@ func RunDeterminism(fam *Family, tier, rule string) int {
 	for si, s := range cliScenarios() {
 		e := &eqEvent{Class: "cli: " + s.name}
 		k := 0
+		firstOut := ""
+		stale := false // the next variant finds every output file already there, longer than what will be written
 		variant := func(desc, root string, abs bool, files map[string]string) {
 			k++
 			for name, content := range files {
@@ -245,6 +247,20 @@ func RunDeterminism(fam *Family, tier, rule string) int {
 			}
 			out := filepath.Join(sc.Dir, "cliout", fmt.Sprintf("s%d-v%d", si, k))
 			_ = os.MkdirAll(out, 0o755)
+			if k == 1 {
+				firstOut = out
+			}
+			if stale {
+				for _, o := range s.outs {
+					// (only where the run writes a file at all: the first variant shows which)
+					if _, err := os.Stat(filepath.Join(firstOut, o)); o != "-" && err == nil {
+						p := filepath.Join(out, o)
+						_ = os.MkdirAll(filepath.Dir(p), 0o755)
+						_ = os.WriteFile(p, []byte("// left by an earlier run\npackage stale\n"+strings.Repeat("// padding padding padding padding\n", 4000)), 0o644)
+					}
+				}
+				stale = false
+			}
 			ok, key, errs := runCLIKey(bin, root, out, s.args(root, abs), s.outs)
 			e.Variants = append(e.Variants, &eqVariant{Desc: desc, OK: ok, Key: key, err: errs, files: files})
 		}
@@ -253,6 +269,8 @@ func RunDeterminism(fam *Family, tier, rule string) int {
 			variant(fmt.Sprintf("process %d, relative arguments", i+1), base, false, s.files)
 		}
 		variant("absolute arguments", base, true, s.files)
+		stale = true
+		variant("output files left by an earlier, longer run are in the way", base, false, s.files)
 		moved := filepath.Join(sc.Dir, "cli", fmt.Sprintf("s%d", si), "a", "very", "different", "place")
 		variant("schema directory moved, relative arguments", moved, false, s.files)
 		variant("schema directory moved, absolute arguments", moved, true, s.files)
